@@ -405,7 +405,14 @@ class MultiFit(FitBase):
             par_names=self._cost_function.arg_names,
             existing_behavior="replace",
         )
+        # the fitter is rebuilt for the new cost function: keep the fixed and limited parameters
+        _fixed_parameters = self._fitter.fixed_parameters
+        _limited_parameters = self._fitter.limited_parameters
         self._initialize_fitter()
+        for _name, _value in _fixed_parameters.items():
+            self._fitter.fix_parameter(_name, _value)
+        for _name, _limits in _limited_parameters.items():
+            self._fitter.limit_parameter(_name, _limits)
 
     def _initialize_fitter(self):
         self._fitter = NexusFitter(
